@@ -242,23 +242,25 @@ func (c *cache) tryRemoveNode(ptr, lockedPtr *node.Pointer) error {
 	switch n := ptr.Node.(type) {
 	case *node.InternalNode:
 		// Remove leaf node and subtrees first.
+		//
+		// The pointers to the removed children are kept (they still carry the hashes of the
+		// children): the removal may be aborted half way when it reaches the locked pointer, and
+		// the node may still be in use by an operation that is descending through it. In both
+		// cases the children must remain re-fetchable instead of appearing to be absent.
 		if n.LeafNode != nil && n.LeafNode.Node != nil {
 			if err := c.tryRemoveNode(n.LeafNode, lockedPtr); err != nil {
 				return err
 			}
-			n.LeafNode = nil
 		}
 		if n.Left != nil && n.Left.Node != nil {
 			if err := c.tryRemoveNode(n.Left, lockedPtr); err != nil {
 				return err
 			}
-			n.Left = nil
 		}
 		if n.Right != nil && n.Right.Node != nil {
 			if err := c.tryRemoveNode(n.Right, lockedPtr); err != nil {
 				return err
 			}
-			n.Right = nil
 		}
 
 		if c.lruInternalPos == ptr.LRU {
